@@ -139,6 +139,16 @@ func genC18(t *rapid.T) c18Case {
 			if rapid.Bool().Draw(t, l+".emptybody") {
 				op = "emptyPost"
 			}
+		case 5:
+			// an ill-typed id (an easy mistake: `id: 5` in YAML)
+			if _, have := p["id"]; have {
+				p["id"] = rapid.SampledFrom([]interface{}{5.0, true, M{"x": 1.0}}).Draw(t, l+".illtypedid")
+			}
+		case 6:
+			// an ill-typed uri (a body may carry its own)
+			if rapid.Bool().Draw(t, l+".baduri") {
+				p["uri"] = rapid.SampledFrom([]interface{}{5.0, true, M{"x": 1.0}}).Draw(t, l+".illtypeduri")
+			}
 		case 2:
 			for _, k := range []string{"fact", "rule", "pattern", "query", "event", "id"} {
 				if _, have := p[k]; have && op != "addFact" && op != "addRule" {
@@ -194,6 +204,14 @@ func c18Direct(s *sys.System, r c18Req, gens map[string]bool) c18Result {
 		return fail
 	}
 	str := func(k string) (string, bool) { v, ok := p[k].(string); return v, ok }
+	if v, have := p["id"]; have {
+		if _, isString := v.(string); !isString {
+			return fail // an ill-typed id
+		}
+	}
+	if _, have := p["uri"]; have {
+		return fail // (only generated ill-typed)
+	}
 	mp := func(k string) (string, bool) {
 		m, ok := p[k].(M)
 		if !ok {
@@ -541,11 +559,24 @@ func c18Render(kind, prefix string, r c18Req) (method, target, body string, ok b
 	for k, v := range r.Params {
 		full[k] = v
 	}
+	// a query string or a form delivers every parameter as a string: an
+	// ill-typed id or uri cannot be expressed there
+	stringsOnly := true
+	for _, k := range []string{"id", "uri"} {
+		if v, have := r.Params[k]; have {
+			if _, isStr := v.(string); !isStr {
+				stringsOnly = false
+			}
+		}
+	}
 	switch kind {
 	case "query":
+		if !stringsOnly {
+			return "", "", "", false
+		}
 		return "GET", uri + "?" + form.Encode(), "", true
 	case "form":
-		if len(form) == 0 {
+		if len(form) == 0 || !stringsOnly {
 			return "", "", "", false
 		}
 		return "POST", uri, form.Encode(), true
@@ -553,7 +584,9 @@ func c18Render(kind, prefix string, r c18Req) (method, target, body string, ok b
 		bs, _ := json.Marshal(full)
 		return "POST", uri, string(bs), true
 	case "envelope":
-		full["uri"] = uri
+		if _, illTyped := full["uri"]; !illTyped {
+			full["uri"] = uri
+		}
 		bs, _ := json.Marshal(full)
 		return "POST", prefixOnly(prefix) + "/json", string(bs), true
 	case "yaml":
